@@ -111,6 +111,16 @@ func scenarios(tier string) []*hn.Scenario {
 			}
 		}
 	}
+	// a sink in the middle of a pipeline (validation only constrains the last two nodes): what follows it
+	// runs iff it returned an event, like after any other node
+	for _, ms := range []hn.Script{P, R, D, E, EV} {
+		for cancel := 0; cancel <= 2; cancel++ {
+			add(hn.NewBuilder(fmt.Sprintf("B mid-sink s1=%s", ms)).
+				Node("m1", "m1", el.NodeTypeFormatter, P).Node("s1", "s1", el.NodeTypeSink, ms).
+				Node("m2", "m2", el.NodeTypeFormatterFilter, R).Node("s2", "s2", el.NodeTypeSink, D).
+				Pipe("t1", "p1", "m1", "s1", "m2", "s2"), cancel, 2, false)
+		}
+	}
 	// C. 3-4 pipelines over 1-3 event types: only the sent type's pipelines run
 	for _, va := range [][]hn.Script{{P, P, D}, {R, P, D}, {P, E, P}, {D, P, P}} {
 		for cancel := 0; cancel <= 1; cancel++ {
@@ -159,6 +169,11 @@ func scenarios(tier string) []*hn.Scenario {
 			Pipe("t1", "p1", "m", "s").
 			Node("m.v2", "m", el.NodeTypeFormatter, R).
 			Pipe("t1", "p1", "m", "s"), cancel, 2, true)
+		// no-op removals (an id that was never registered; the same id twice) must not disturb what is registered
+		add(hn.NewBuilder("D remove-unknown-id").Std("t1", "p1", P, D).RemovePipe("t1", "ghost"), cancel, 2, true)
+		add(hn.NewBuilder("D remove-twice-then-register").Std("t1", "p1", P, D).RemovePipe("t1", "p1").RemovePipe("t1", "p1").
+			Std("t1", "p2", R, D), cancel, 2, true)
+		add(hn.NewBuilder("D remove-unknown-of-other-type").Std("t1", "p1", P, D).Std("t2", "p1", P, D).RemovePipe("t2", "ghost").RemovePipe("t2", "p1").RemovePipe("t2", "p1"), cancel, 2, true)
 		// overwrite twice, then remove the other pipeline
 		add(hn.NewBuilder("D overwrite-twice").Std("t1", "p1", P, D).Std("t1", "p2", P, D).
 			Node("m3", "m3", el.NodeTypeFormatter, P).Node("s3", "s3", el.NodeTypeSink, D).
